@@ -225,7 +225,7 @@ class C14(EngineBase):
         op = step["op"]
         # dry run on clones, with cold lru caches and the fuse cache restored
         # afterwards, so the armed line count refers to the very same execution
-        saved = collections.OrderedDict(AC._fuseinfos)
+        saved = collections.OrderedDict(core.CACHE._fuseinfos)
         counters = core.cache_counters()
         core.clear_lru()
         cl = {}
@@ -233,16 +233,16 @@ class C14(EngineBase):
             if n not in cl:
                 cl[n] = S.clone(heap[n])
         total, _, _ = inject.run_counted(lambda: ops.run_step(step, cl))
-        AC._fuseinfos.clear()
-        AC._fuseinfos.update(saved)
-        AC._fi_hit, AC._fi_missed, AC._fi_missed_too_long = counters
+        core.CACHE._fuseinfos.clear()
+        core.CACHE._fuseinfos.update(saved)
+        core.CACHE._fi_hit, core.CACHE._fi_missed, core.CACHE._fi_missed_too_long = counters
         core.clear_lru()
         if step.get("crash_all") and "crash_n" not in step and total:
             # enumerate every crash line of this call; the first line at which
             # an operand is found modified is recorded as the concrete point
             for n in range(1, min(total, 4000) + 1):
-                AC._fuseinfos.clear()
-                AC._fuseinfos.update(saved)
+                core.CACHE._fuseinfos.clear()
+                core.CACHE._fuseinfos.update(saved)
                 core.clear_lru()
                 fired, _, exc = inject.run_crashing(lambda: ops.run_step(step, heap), n)
                 if isinstance(exc, HarnessError):
@@ -257,8 +257,8 @@ class C14(EngineBase):
                     step["crash_n"] = n
                     step.pop("crash_all", None)
                     raise
-            AC._fuseinfos.clear()
-            AC._fuseinfos.update(saved)
+            core.CACHE._fuseinfos.clear()
+            core.CACHE._fuseinfos.update(saved)
             core.clear_lru()
             step.pop("crash_all", None)
         if "crash_n" not in step:
